@@ -777,6 +777,11 @@ fn plan13(seed: u64, run: u64, tier: Tier) -> Plan13 {
     }
     let mut case = gen_case(&mut rng, tier, false);
     case.faults = gen_faults(&mut rng);
+    // known finding F14 (multi-byte white space as the operand of `delete`): one run in 64 carries it on purpose
+    if run % 64 == 37 {
+        case.source = jsgen::gen_unicode_space_after_delete(&mut rng);
+        case.tags[0] = "src:unicode-space-after-delete".into();
+    }
     Plan13 { mode: "single".into(), case, sweep_chunk: 0, sweep_seed: 0 }
 }
 
